@@ -824,7 +824,8 @@ static void refcountLine(Hist& h) {
 static void observe(Hist& h, std::vector<int> slots, const std::string& stepName) {
   std::sort(slots.begin(), slots.end());
   slots.erase(std::unique(slots.begin(), slots.end()), slots.end());
-  std::string P, T, O;
+  std::string P, T, O, G;
+  auto bits = [](double v) { uint64_t u; std::memcpy(&u, &v, 8); return hex16(u); };
   for (int s : slots) {
     Slot& x = h.pool[s];
     try {
@@ -832,9 +833,18 @@ static void observe(Hist& h, std::vector<int> slots, const std::string& stepName
         P += " " + std::to_string(s) + "=" + hex16(peekHash(*x.m));
         O += " " + std::to_string(s) + "=" + hex16(fullHash(*x.m));
         x.est = (long)x.m->NumTri();
+        // G: evaluation-order independent invariants (bit patterns; compared with a tolerance by the oracle):
+        // status, emptiness, volume, surface area, bounding box
+        Box b = x.m->BoundingBox();
+        G += " " + std::to_string(s) + "=M," + std::to_string((int)x.m->Status()) + "," + (x.m->IsEmpty() ? "1" : "0") + "," +
+             bits(x.m->Volume()) + "," + bits(x.m->SurfaceArea()) + "," + bits(b.min.x) + "," + bits(b.min.y) + "," +
+             bits(b.min.z) + "," + bits(b.max.x) + "," + bits(b.max.y) + "," + bits(b.max.z);
       } else if (x.kind == CS) {
         T += " " + std::to_string(s) + "=" + hex16(csTolHash(*x.c));
         O += " " + std::to_string(s) + "=" + hex16(fullHash(*x.c));
+        Rect r = x.c->Bounds();
+        G += " " + std::to_string(s) + "=C,0," + (x.c->IsEmpty() ? "1" : "0") + "," + bits(x.c->Area()) + "," + bits(0.0) + "," +
+             bits(r.min.x) + "," + bits(r.min.y) + "," + bits(0.0) + "," + bits(r.max.x) + "," + bits(r.max.y) + "," + bits(0.0);
       }
     } catch (std::exception& e) {
       out("X " + h.id + " " + stepName + " observe:" + e.what());
@@ -843,6 +853,7 @@ static void observe(Hist& h, std::vector<int> slots, const std::string& stepName
   if (!P.empty()) out("P " + h.id + " " + stepName + P);
   if (!T.empty()) out("T " + h.id + " " + stepName + T);
   out("O " + h.id + " " + stepName + O);
+  if (!G.empty()) out("G " + h.id + " " + stepName + G);
 }
 
 static void runHistory(std::istringstream& in) {
